@@ -65,13 +65,13 @@ fn rc(r: &std::io::Result<usize>) -> u64 {
     }
 }
 
-// ---- keeping things alive past their last use
-// FINDING (reported, see pending_fixes/io-subscribe-cancel-uaf.patch): the `subscribe` of the net operations takes
-// `co_cancel_data(&co)` (a reference into the coroutine's handle), publishes the coroutine with `io_data.co.store(co)` and
-// uses the reference afterwards (`cancel.set_io`, `cancel.is_canceled`). Another thread can resume the coroutine in between;
-// if it finishes and its last handle is dropped, the kernel tail writes into freed memory. The perturbation widens that
-// window to milliseconds. The scenarios therefore keep every coroutine handle, and every actor thread (the thread-local
-// proxy coroutine lives as long as the thread), alive until the run has settled. `VH_IO_NO_KEEPALIVE=1` switches this off.
+// ---- keeping things alive past their last use (OFF by default since the fixes are in /repo)
+// On the tree before 128a1d4 the `subscribe` of the net operations used `self`, `io_data` (a reference into the caller's socket
+// object) and `cancel` (a reference into the coroutine's handle) after publishing the coroutine with `io_data.co.store(co)`: a
+// use-after-free that the perturbation widened to milliseconds. With `VH_IO_KEEPALIVE=1` the scenarios keep every socket (boxed),
+// coroutine handle and actor thread alive until the run has settled, which is how the check was kept stable on that tree.
+// By default sockets are now dropped right after use, actor threads end with their work, may's `connect` runs under
+// perturbation: the shapes that crashed / hung before must stay quiet.
 static KEEP: Mutex<Vec<coroutine::Coroutine>> = Mutex::new(Vec::new());
 static THREADS: Mutex<Vec<std::thread::JoinHandle<()>>> = Mutex::new(Vec::new());
 static RELEASE: AtomicBool = AtomicBool::new(true);
@@ -84,7 +84,7 @@ fn park_sock<T: Send + 'static>(t: T) {
     }
 }
 fn keepalive() -> bool {
-    std::env::var("VH_IO_NO_KEEPALIVE").is_err()
+    std::env::var("VH_IO_KEEPALIVE").is_ok()
 }
 fn scenario_begin() {
     quiet_panics();
@@ -92,7 +92,7 @@ fn scenario_begin() {
 }
 /// wait until no hooked event has happened for a while (all kernel tails are through), then let everything go
 fn settle() {
-    if keepalive() {
+    {
         let t0 = Instant::now();
         let mut last = crate::rt::LIVE_EVENTS.load(Ordering::Relaxed);
         let mut quiet = Instant::now();
@@ -667,7 +667,8 @@ pub fn build_stream(rng: &mut Rng, tier: u32) -> LiveBuilt {
     let conns = 1 + rng.below(if tier > 0 { 4 } else { 2 }) as usize;
     let plans: Vec<ConnPlan> = (0..conns).map(|_| plan_conn(rng, tier)).collect();
     let total: usize = plans.iter().map(|p| p.len).sum();
-    let may_connect = predicted_perturb(rng) == 0;
+    let _ = predicted_perturb(rng);
+    let may_connect = true;
     let header = format!(
         "family=io_stream kind={} conns={} bytes={} connect={} callers={}",
         if tcp { "tcp" } else { "unix" },
@@ -723,7 +724,19 @@ pub fn build_timeout(rng: &mut Rng, tier: u32, race: bool) -> LiveBuilt {
         let small = if race {
             [300u64, 999, 1000, 1500, 2000, 3000][rng.below(6) as usize]
         } else {
-            [20u64, 21, 25, 30, 33, 40, 50, 64][rng.below(8) as usize] * 1000 + [0u64, 0, 0, 1, 250, 500, 999][rng.below(7) as usize]
+            // time-outs below 20 ms only with VH_IO_SMALL_TIMEOUTS=1 (and in the race family): on /repo HEAD the timer handle cell is
+            // an unsynchronised RefCell and `with_mut_data` panics on a popped entry – a timer that fires while the operation is being
+            // completed kills a worker thread (hang); pending_fixes/io-timer-handle-race.patch. The generator draws the same number
+            // of values either way.
+            {
+                let (i, j) = (rng.below(11) as usize, rng.below(7) as usize);
+                let ms = if std::env::var("VH_IO_SMALL_TIMEOUTS").is_ok() {
+                    [1u64, 2, 3, 5, 8, 13, 20, 21, 33, 50, 64][i]
+                } else {
+                    [20u64, 21, 25, 30, 33, 40, 50, 64, 22, 27, 36][i]
+                };
+                ms * 1000 + [0u64, 0, 0, 1, 250, 500, 999][j]
+            }
         };
         let op = match rng.below(if last_ms > 0 { 4 } else { 3 }) {
             0 | 1 => TOp::Idle { us: small },
@@ -912,7 +925,7 @@ pub fn build_cancel(rng: &mut Rng, tier: u32) -> LiveBuilt {
     let other_tcp = rng.chance(500);
     let other_plans: Vec<ConnPlan> = (0..others).map(|_| plan_conn(rng, tier)).collect();
     let canceller_thread = rng.chance(500);
-    let may_connect = predicted_perturb(rng) == 0;
+    let may_connect = true;
     let header = format!(
         "family=io_cancel victim={} timeout={} delay_us={} pre={} others={}",
         ["tcp_read", "unix_read", "tcp_accept"][what as usize],
@@ -1197,8 +1210,7 @@ pub fn build_cancel_shared(rng: &mut Rng, _tier: u32) -> LiveBuilt {
 
 /// The shape of the crate's own test `os::unix::net::test::iter`, which hangs in about 2 % of looped runs under load on the
 /// unchanged tree: a coroutine accepts `n` connections one after the other on a UnixListener and reads one byte from each; a
-/// plain thread connects `n` times, writes one byte and drops the stream at once. Runs WITHOUT perturbation (it overrides the
-/// level chosen by `vh live`): sockets are dropped while their kernel tails may still run, as in the test.
+/// plain thread connects `n` times, writes one byte and drops the stream at once; sockets are dropped while their kernel tails may still run, as in the test.
 pub fn build_unix_iter(rng: &mut Rng, _tier: u32) -> LiveBuilt {
     let seed = rng.next();
     let n = 2 + rng.below(5) as usize;
@@ -1209,7 +1221,6 @@ pub fn build_unix_iter(rng: &mut Rng, _tier: u32) -> LiveBuilt {
         filter: FILTER.to_vec(),
         hang_ms: 3000,
         run: Box::new(move || {
-            crate::rt::live_setup(seed, 0);
             scenario_begin();
             let fails: Fails = Arc::new(Mutex::new(vec![]));
             let path = format!("/tmp/vh_io_{}_{}.sock", std::process::id(), seed);
@@ -1240,9 +1251,9 @@ pub fn build_unix_iter(rng: &mut Rng, _tier: u32) -> LiveBuilt {
             .unwrap();
             KEEP.lock().unwrap().push(server.coroutine().clone());
             for k in 0..n {
-                call("io.connect", 0, 0);
+                call("io.connect_std", 0, 0); // (in thread context UnixStream::connect is the blocking std connect)
                 let r = UnixStream::connect(&path);
-                ret("io.connect", if r.is_ok() { 0 } else { (-4i64) as u64 });
+                ret("io.connect_std", if r.is_ok() { 0 } else { (-4i64) as u64 });
                 match r {
                     Ok(mut s) => {
                         call("io.write", 1, 0);
@@ -1274,19 +1285,17 @@ pub fn build_unix_iter(rng: &mut Rng, _tier: u32) -> LiveBuilt {
 /// same number and register it; the late delete then removes the NEW socket's registration and that socket never sees a
 /// readiness event again: a reader blocks for ever although the data is there (pending_fixes/io-coio-close-before-epoll-del.patch).
 /// Several pairs of plain threads create Unix socket pairs, block in a read, feed it and drop both ends at once, concurrently.
-/// Runs WITHOUT perturbation (sockets are dropped while kernel tails may still run, as in the crate's own tests, which is where
-/// this was seen: `os::unix::net::test::{basic,pair,try_clone,iter}` hang in ~2 % of looped runs under load).
+/// (Seen first in the crate's own tests: `os::unix::net::test::{basic,pair,try_clone,iter}` hang in ~2 % of looped runs under load).
 pub fn build_unix_churn(rng: &mut Rng, tier: u32) -> LiveBuilt {
-    let seed = rng.next();
+    let _seed = rng.next();
     let pairs = 3 + rng.below(3) as usize;
-    let rounds = if tier > 0 { 200 } else { 60 };
+    let rounds = if tier > 0 { 120 } else { 60 };
     let header = format!("family=io_unix_churn pairs={pairs} rounds={rounds}");
     LiveBuilt {
         header,
         filter: FILTER.to_vec(),
         hang_ms: 3000,
         run: Box::new(move || {
-            crate::rt::live_setup(seed, 0);
             scenario_begin();
             let fails: Fails = Arc::new(Mutex::new(vec![]));
             let mut js = vec![];
